@@ -19,7 +19,7 @@ static std::vector<Lim> limits() {
         {"param_description", 255, {127, 128, 254, 255, 256, 1000}}, {"param_name", 127, {126, 127, 128, 300}}, {"group_name", 127, {126, 127, 128, 300}}, {"locked_group_name", 127, {126, 127, 128, 129, 200, 256, 300}}, {"locked_param_name", 127, {126, 127, 128, 129, 200, 256, 300}},   // the lock flag is the SIGN of the length byte
         {"dimension_entry", 255, {127, 128, 254, 255, 256, 1000}}, {"empty_string_count", 255, {127, 128, 254, 255, 256, 300}}, {"dimension_after_empty", 255, {127, 128, 254, 255, 256, 300}}, {"string_length", 255, {127, 128, 254, 255, 256, 1000}}, {"string_count", 255, {127, 128, 254, 255, 256, 1000}},
         {"points", 255, {127, 128, 254, 255, 256, 300}}, {"channels", 255, {127, 128, 254, 255, 256, 300}}, {"frames", 32767, {32766, 32767, 32768, 70000}},
-        {"int_max", 32767, {32766, 32767, 32768, 100000}}, {"int_min", -32768, {-32767, -32768, -32769, -100000}}, {"param_blocks", 255, {127, 128, 254, 255, 256, 300}}, {"record_offset", 65535, {32767, 32768, 65534, 65535, 65536, 262144}},
+        {"int_max", 32767, {32766, 32767, 32768, 100000}}, {"int_min", -32768, {-32767, -32768, -32769, -100000}}, {"param_blocks", 255, {127, 128, 254, 255, 256, 300}}, {"record_offset", 65535, {32767, 32768, 65534, 65535, 65536, 80008, 262144}},
         // bytes of the parameter section up to (not including) its one-byte terminator: 255 blocks hold 255*512-1 of them (byte-exact, where param_blocks moves in steps of a whole record)
         {"param_section_bytes", 130559, {130558, 130559, 130560, 131200}},
     };
@@ -51,6 +51,7 @@ static void applyLimit(Build& b, const std::string& dim, long v) {
         else if (v == 65534) { std::vector<std::string> sv(2 * 163, std::string(201, 'h')); p.set(sv, {2, 163}); }
         else if (v == 65535) { std::vector<std::string> sv(23 * 37, std::string(77, 'h')); p.set(sv, {23, 37}); }
         else if (v == 65536) { std::vector<std::string> sv(23 * 37, std::string(77, 'h')); p.set(sv, {23, 37, 1}); }
+        else if (v == 80008) { std::vector<std::string> sv(400, std::string(200, 'h')); p.set(sv, {200, 2}); }    // far beyond, as strings (the element size of CHAR is its own case)
         else { std::vector<float> f(255 * 255, 2.5f); p.set(f, {255, 255}); }
         b.c.parameter("LIMITS", p);
     }
@@ -66,6 +67,7 @@ static std::string finishAndCheck(Build& b, const std::string& dir, std::string&
         std::string before; dumpObject(before, snapObject(b.c));
         try { call(); } catch (...) { std::string after; dumpObject(after, snapObject(b.c)); if (after != before) b.c10 += (b.c10.empty() ? "" : "; ") + what; throw; }
     };
+    { Param z("LAST"); z.set(std::vector<int>() = {1, 2, 3}); b.c.parameter("ZZZ", z); }   // a record AFTER the one at the limit: a chain cut short or a wrapped offset loses it
     for (long i = 0; i < b.nPoints; ++i) guardedCall([&] { b.c.point("P" + std::to_string(i)); }, "point(name) #" + std::to_string(i));
     for (long i = 0; i < b.nChans; ++i) guardedCall([&] { b.c.analog("c" + std::to_string(i)); }, "analog(name) #" + std::to_string(i));
     if (b.nPoints) b.c.parameter("POINT", mkRate(100.f)); if (b.nChans) b.c.parameter("ANALOG", mkRate(100.f));
